@@ -441,7 +441,7 @@ func (r *Run) unwind(st *State) error {
 					return pathEnd{EndMerged, ""}
 				}
 			}
-			if rp, ok := st.Hook.(*POReplay); ok && st.Hook != nil && rp.PO.deferredIsSite(st, d) {
+			if rp, ok := st.Hook.(*POReplay); ok && st.Hook != nil && (st.Rp == nil || !st.Rp.Probe) && rp.PO.deferredIsSite(st, d) {
 				if !rp.nextIsCurrent(st) {
 					// (the panic record is per state, not per thread)
 					rp.note(st, "thread switch in the middle of a panic unwinding is not supported by the replay")
@@ -726,7 +726,7 @@ func (r *Run) step(st *State) error {
 	}
 	in := f.Block.Instrs[f.PC]
 	if st.Hook != nil {
-		if rp, ok := st.Hook.(*POReplay); ok && rp.PO.isSite(r, st, in) {
+		if rp, ok := st.Hook.(*POReplay); ok && (st.Rp == nil || !st.Rp.Probe) && rp.PO.isSite(r, st, in) {
 			pos := st.pos(in.Pos())
 			if pos == "" {
 				pos = st.curPos()
@@ -987,7 +987,7 @@ func (r *Run) exec(st *State, f *Frame, in ssa.Instruction) error {
 				return pathEnd{EndMerged, ""}
 			}
 		}
-		if rp, ok := st.Hook.(*POReplay); ok && st.Hook != nil && rp.PO.deferredIsSite(st, d) {
+		if rp, ok := st.Hook.(*POReplay); ok && st.Hook != nil && (st.Rp == nil || !st.Rp.Probe) && rp.PO.deferredIsSite(st, d) {
 			pos := st.pos(x.Pos())
 			if pos == "" {
 				pos = st.curPos()
